@@ -234,6 +234,10 @@ func genC10Late(t *rapid.T) *Case {
 	if rapid.IntRange(0, 3).Draw(t, "second_serve") == 0 {
 		c.Events = append(c.Events, Event{Kind: "serve_more", After: stopAt + rapid.IntRange(0, 3).Draw(t, "serve2_delta"), AtStep: true})
 	}
+	if rapid.IntRange(0, 1).Draw(t, "park_serve") == 0 {
+		// hold the late Serve call between registering its tunnel and serving it (set-up tunnels pass the point first)
+		c.Yields = append(c.Yields, Yield{Point: "reverse.serve.afterAddInstance", Nth: len(c.Cfg.Tunnels), Repeat: 2, Kind: "park"})
+	}
 	c.Tape = genTape(t, 0, 200)
 	return c
 }
